@@ -117,8 +117,9 @@ EbErrorType mode_decision_context_ctor(ModeDecisionContext *context_ptr, EbColor
     EB_MALLOC_ARRAY(context_ptr->md_rate_estimation_ptr, 1);
     context_ptr->is_md_rate_estimation_ptr_owner = EB_TRUE;
 
-    EB_MALLOC_ARRAY(context_ptr->md_local_blk_unit, block_max_count_sb);
-    EB_MALLOC_ARRAY(context_ptr->md_blk_arr_nsq, block_max_count_sb);
+    // zero-filled: the destructor releases members of these entries, also when the constructor fails half-way
+    EB_CALLOC_ARRAY(context_ptr->md_local_blk_unit, block_max_count_sb);
+    EB_CALLOC_ARRAY(context_ptr->md_blk_arr_nsq, block_max_count_sb);
     EB_MALLOC_ARRAY(context_ptr->md_ep_pipe_sb, block_max_count_sb);
     // Fast Candidate Array
     EB_MALLOC_ARRAY(context_ptr->fast_candidate_array, MODE_DECISION_CANDIDATE_MAX_COUNT);
